@@ -51,7 +51,7 @@ Proof. eexists. split; [vm_compute; reflexivity | reflexivity]. Qed.
 Theorem C03_marshal_agree_partial_jit : forall e co t v fuel res prog,
   (0 < MaxInlineDepth co)%nat -> EncOnlyOmitNull co = false ->
   frag e t -> compilable e co t -> has_type (fok prims_jit) t v -> compile e co t false = COk prog ->
-  std_marshal e Qraw fuel (Some (t, v)) = SOk res -> (need v <= 4096)%nat ->
+  std_marshal e Qraw false fuel (Some (t, v)) = SOk res -> (need v <= 4096)%nat ->
   agree (encode prims_jit e co std_flags (Some (t, v))) res.
 Proof. exact marshal_agree_jit. Qed.
 Print Assumptions C03_marshal_agree_partial_jit.
@@ -59,7 +59,7 @@ Print Assumptions C03_marshal_agree_partial_jit.
 Theorem C03_marshal_agree_partial_vm : forall e co t v fuel res prog,
   (0 < MaxInlineDepth co)%nat -> EncOnlyOmitNull co = false ->
   frag e t -> compilable e co t -> has_type (fok prims_vm) t v -> compile e co t false = COk prog ->
-  std_marshal e Qraw fuel (Some (t, v)) = SOk res -> (need v <= 4096)%nat ->
+  std_marshal e Qraw false fuel (Some (t, v)) = SOk res -> (need v <= 4096)%nat ->
   agree (encode prims_vm e co std_flags (Some (t, v))) res.
 Proof. exact marshal_agree_vm. Qed.
 Print Assumptions C03_marshal_agree_partial_vm.
@@ -68,10 +68,10 @@ Print Assumptions C03_marshal_agree_partial_vm.
 Theorem C03_marshal_agree_total_jit : forall e co t v prog,
   (0 < MaxInlineDepth co)%nat -> EncOnlyOmitNull co = false ->
   frag e t -> compilable e co t -> has_type (fok prims_jit) t v -> compile e co t false = COk prog -> (need v <= 4096)%nat ->
-  exists res, std_marshal e Qraw (S (need v)) (Some (t, v)) = SOk res /\ agree (encode prims_jit e co std_flags (Some (t, v))) res.
+  exists res, std_marshal e Qraw false (S (need v)) (Some (t, v)) = SOk res /\ agree (encode prims_jit e co std_flags (Some (t, v))) res.
 Proof.
   intros e co t v prog Hin Hnu Hf Hc Hv Hp Hn.
-  destruct (std_total e (fok prims_jit)) with (t := t) (v := v) (fuel := S (need v)) (addr := false) as [res Hr]; try assumption.
+  destruct (std_total e false (fok prims_jit)) with (t := t) (v := v) (fuel := S (need v)) (addr := false) as [res Hr]; try assumption.
   - intros k b txt (x & -> & _). eexists; reflexivity.
   - apply le_n.
   - exists res. split; [exact Hr|]. eapply marshal_agree_jit; eassumption.
@@ -81,10 +81,10 @@ Print Assumptions C03_marshal_agree_total_jit.
 Theorem C03_marshal_agree_total_vm : forall e co t v prog,
   (0 < MaxInlineDepth co)%nat -> EncOnlyOmitNull co = false ->
   frag e t -> compilable e co t -> has_type (fok prims_vm) t v -> compile e co t false = COk prog -> (need v <= 4096)%nat ->
-  exists res, std_marshal e Qraw (S (need v)) (Some (t, v)) = SOk res /\ agree (encode prims_vm e co std_flags (Some (t, v))) res.
+  exists res, std_marshal e Qraw false (S (need v)) (Some (t, v)) = SOk res /\ agree (encode prims_vm e co std_flags (Some (t, v))) res.
 Proof.
   intros e co t v prog Hin Hnu Hf Hc Hv Hp Hn.
-  destruct (std_total e (fok prims_vm)) with (t := t) (v := v) (fuel := S (need v)) (addr := false) as [res Hr]; try assumption.
+  destruct (std_total e false (fok prims_vm)) with (t := t) (v := v) (fuel := S (need v)) (addr := false) as [res Hr]; try assumption.
   - intros k b txt (x & -> & _). eexists; reflexivity.
   - apply le_n.
   - exists res. split; [exact Hr|]. eapply marshal_agree_vm; eassumption.
@@ -92,28 +92,28 @@ Qed.
 Print Assumptions C03_marshal_agree_total_vm.
 
 (* the machine-level statement behind it: the code compiled for a type of the fragment, placed anywhere in a program, at any
-   inline depth and pv, run under any option word without NoNullSliceOrMap with the cursor on a value of that type, appends
+   inline depth and pv, run under any option word (nn = its NoNullSliceOrMap bit, which the reference encoder takes as a parameter) with the cursor on a value of that type, appends
    the reference bytes and restores every register and the state stack *)
-Theorem C03_code_ok_frag : forall P e co,
+Theorem C03_code_ok_frag : forall P e co nn,
   (forall z, (- 2 ^ 63 <= z < 2 ^ 63)%Z -> p_i64toa P z = itoa z) ->
   (forall z, (0 <= z < 2 ^ 64)%Z -> p_u64toa P z = utoa (Z.to_N z)) ->
   (forall s d, p_quote P s d = quote s d) ->
   b_recurse P <> b_empty_arr P -> EncOnlyOmitNull co = false -> (0 < MaxInlineDepth co)%nat ->
   forall t, frag e t -> compilable e co t -> forall cf tab cpv sp pc pv c, tab_above tab t ->
-    compileOne e co cf tab cpv sp pc t pv = COk c -> code_ok P e co t c pc.
+    compileOne e co cf tab cpv sp pc t pv = COk c -> code_ok P e co nn t c pc.
 Proof. exact code_ok_frag. Qed.
 Print Assumptions C03_code_ok_frag.
 
 (* hypotheses satisfiable, and the statement is not about OutOfFuel only: a slice of pointers to structs (array + string fields) *)
 Example C03_marshal_agree_nonvacuous :
   frag [] ex_ty /\ compilable [] default_copts ex_ty /\ has_type (fok prims_jit) ex_ty ex_val /\
-  std_marshal [] Qraw 10 (Some (ex_ty, ex_val)) = SOk ex_out /\
+  std_marshal [] Qraw false 10 (Some (ex_ty, ex_val)) = SOk ex_out /\
   encode prims_jit [] default_copts std_flags (Some (ex_ty, ex_val)) = Done ex_out.
 Proof. exact frag_example. Qed.
 
 (* the same for the field options of the fragment: `,string` on an int64, omitempty on a false bool (left out) and on a non-empty string *)
 Example C03_marshal_agree_nonvacuous_opts :
   frag [] ex2_ty /\ compilable [] default_copts ex2_ty /\ has_type (fok prims_jit) ex2_ty ex2_val /\
-  std_marshal [] Qraw 10 (Some (ex2_ty, ex2_val)) = SOk ex2_out /\
+  std_marshal [] Qraw false 10 (Some (ex2_ty, ex2_val)) = SOk ex2_out /\
   encode prims_jit [] default_copts std_flags (Some (ex2_ty, ex2_val)) = Done ex2_out.
 Proof. exact frag_example_opts. Qed.
